@@ -49,7 +49,7 @@ Init == /\ disk = {} /\ folder = FALSE /\ reg = [f \in Files |-> 0] /\ fReg = FA
         /\ held = [w \in Workers |-> {}] /\ alive = [w \in Workers |-> TRUE]
         /\ parent = "running" /\ forced = FALSE /\ tracker = TRUE
 
-Clients == (IF parent \in {"running", "cleaned"} THEN {"parent"} ELSE {}) \cup {w \in Workers : alive[w]}
+NoClients == parent \notin {"running", "cleaned"} /\ \A w \in Workers : ~alive[w]
 
 \* tracker side of MAYBE_UNLINK (count 0 and unknown names are ignored)
 Unlink(f) == IF reg[f] = 0 THEN UNCHANGED <<reg, disk>>
@@ -106,7 +106,7 @@ Die(w) ==            \* killed, or orphaned worker reaching its idle timeout: fi
 
 \* ---- tracker: every client gone -> delete what is registered (files first, then folders), exit
 TrackerEOF ==
-  /\ tracker /\ Clients = {}
+  /\ tracker /\ NoClients
   /\ tracker' = FALSE
   /\ disk' = IF fReg THEN {} ELSE {f \in disk : reg[f] = 0}
   /\ folder' = IF fReg THEN FALSE ELSE folder
